@@ -79,6 +79,13 @@ func (m *CPU) Context() *risc.Context {
 
 func (m *CPU) Run(app risc.Application) (int, error) {
 	defer func() {
+		// A forwarded operand is kept inside the parsed instruction: leave none
+		// behind for the next machine that runs this program
+		for _, instruction := range app.Instructions {
+			instruction.Forward(risc.Forward{})
+		}
+	}()
+	defer func() {
 		log.Infou(m.ctx, "L3", m.memoryManagementUnit.l3.String())
 	}()
 	cycle := 0
